@@ -299,7 +299,7 @@ func runC13(r *Run) {
 // descendant blocks, so the content of every descendant must itself be hash-checked before the
 // transaction is accepted (shared by C13, C03, C01). D21 was the absence of this check.
 func descendantHashBinding(r *Run) {
-	r.Alias("$desc", "recv.transaction.Block.DescendantBlocks[(iter+1)]")
+	r.Alias("$desc", "recv.transaction.Block.DescendantBlocks[iter]")
 	r.Guard("verifier.(*accountBlockTransactionVerifier).descendantBlocks", r.X("ne($desc.ComputeHash(),$desc.Hash)"),
 		"a descendant block is stored and later received by its recipient with the content delivered; its Amount, ToAddress, TokenStandard and Data are bound to the parent only through its own recomputed hash")
 }
